@@ -466,6 +466,87 @@ fn flush(rep: &mut Report) {
     rep.hit_n("count_law_plus_one_cases", PLUS_ONE.with(|c| c.replace(0)));
 }
 
+// ------------------------------------------------------------------ ratio 1 as "equal rates"
+/// `from_hz_to_hz(r, r)` and `set_hz_to_hz(r, r)` ARE ratio exactly 1, whatever r is: the source
+/// must come through unchanged (floor: the frame itself; linear: the frame itself, fraction 0),
+/// one pull per output, for thousands of frames. The setter is applied mid-stream at a whole
+/// position (after running at ratio 1 through another route) and at a fractional one (after two
+/// outputs at ratio 0.5, i.e. at P = 1.0: whole again), and the position must keep its value.
+fn equal_rates(rep: &mut Report, seed: u64, n_rates: usize, frames: u64) {
+    fn g(i: u64) -> f64 {
+        i as f64 + 1.0
+    }
+    let mut rng = Rng::derive(seed, &[83]);
+    let mut rates: Vec<f64> = vec![49.0, 11_000.0, 22_000.0, 44_100.0, 48_000.0, 1.0, 3.0, 0.1, 1e-3, 1e9, 7.0, 96_000.0, 12_345.678];
+    for _ in 0..n_rates {
+        rates.push(rng.f64_in(0.5, 200_000.0));
+        rates.push((1 + rng.below(100_000)) as f64);
+    }
+    for (k, r) in rates.iter().enumerate() {
+        let case = format!("live=2;seed={};rate={:e}", seed, r);
+        let res = vmon::catch(std::panic::AssertUnwindSafe(|| -> Result<(), String> {
+            for linear in [false, true] {
+                for via_setter in [false, true] {
+                    let probe = Probe::new();
+                    let mut s = USource::infinite(g, probe.clone());
+                    let (a, b) = (s.next(), if linear { s.next() } else { 0.0 });
+                    let prime = probe.pulls();
+                    macro_rules! run {
+                        ($c:expr) => {{
+                            let mut c = $c;
+                            let mut want_idx = 0u64; // source frame index the next output must be
+                            if via_setter {
+                                // two outputs at ratio 0.5 (positions 0, 0.5), then equal rates at P = 1.0
+                                let o0 = c.next();
+                                let o1 = c.next();
+                                let e1 = if linear { g(0) + 0.5 * (g(1) - g(0)) } else { g(0) };
+                                if o0 != g(0) || o1 != e1 {
+                                    return Err(format!("warm-up at ratio 0.5: {} {} expected {} {}", o0, o1, g(0), e1));
+                                }
+                                c.set_hz_to_hz(*r, *r);
+                                want_idx = 1;
+                            }
+                            for n in 0..frames {
+                                let got = c.next();
+                                let want = g(want_idx + n);
+                                if got != want {
+                                    return Err(format!("{} via {}: output {} after the rates were made equal = {:e}, the source frame is {:e} (drift {:e})", if linear { "linear" } else { "floor" }, if via_setter { "set_hz_to_hz(r, r) at P = 1.0" } else { "from_hz_to_hz(r, r)" }, n, got, want, got - want));
+                                }
+                            }
+                            let pulls = probe.pulls() - prime;
+                            let want_pulls = want_idx + frames - 1;
+                            if pulls != want_pulls {
+                                return Err(format!("{} via {}: {} source frames pulled for {} outputs at ratio 1 (expected {})", if linear { "linear" } else { "floor" }, if via_setter { "setter" } else { "constructor" }, pulls, frames, want_pulls));
+                            }
+                        }};
+                    }
+                    match (linear, via_setter) {
+                        (false, false) => run!(s.from_hz_to_hz(Floor::new(a), *r, *r)),
+                        (true, false) => run!(s.from_hz_to_hz(Linear::new(a, b), *r, *r)),
+                        (false, true) => run!(s.scale_hz(Floor::new(a), 0.5)),
+                        (true, true) => run!(s.scale_hz(Linear::new(a, b), 0.5)),
+                    }
+                }
+            }
+            Ok(())
+        }));
+        match res {
+            Ok(Ok(())) => {}
+            Ok(Err(d)) => {
+                rep.violation("converter|equal_rates|not_ratio_one", format!("rate {:e}: {}", r, d), case);
+                return;
+            }
+            Err(m) => {
+                rep.violation("converter|equal_rates|panic", format!("rate {:e}: {}", r, m), case);
+                return;
+            }
+        }
+        rep.eval(4 * frames);
+        rep.nontrivial(vmon::hash_combine(0x6571, k as u64 ^ r.to_bits()));
+        rep.hit("ratio_one_requested_as_equal_rates");
+    }
+}
+
 // ------------------------------------------------------------------ a source that is fed later
 /// Exhaustion reporting over a source whose own exhaustion is NOT sticky: a queue shared with the
 /// harness, exhausted while empty, live again once fed (a channel; in-library: an up-sampling
@@ -567,6 +648,11 @@ fn main() {
     let consts = const_ratios();
     if let Some(cs) = &cli.case {
         let m = vmon::cli::parse_case(cs);
+        if m.get("live").map(|s| s.as_str()) == Some("2") {
+            equal_rates(&mut rep, cli.seed, 40, 3_000);
+            flush(&mut rep);
+            finish(&cli, rep, t0);
+        }
         if m.contains_key("live") {
             live_exhaustion(&mut rep, m["seed"].parse().unwrap(), m["h"].parse::<u64>().unwrap() + 1);
             flush(&mut rep);
@@ -592,6 +678,8 @@ fn main() {
         flush(&mut rep);
         finish(&cli, rep, t0);
     }
+    rep.oblige("ratio_one_requested_as_equal_rates", 1);
+    equal_rates(&mut rep, cli.seed, cli.t(40, 2_000), cli.t(3_000, 30_000));
     rep.oblige("source_fed_again_after_converter_reported_exhaustion", 1);
     live_exhaustion(&mut rep, cli.seed, cli.t(2_000, 1_000_000));
     rep.oblige("output_pulled_three_or_more_frames", 1);
